@@ -155,6 +155,21 @@ def accessor_ops(ctx, rng, xr):
             return r
 
         pure(rec, "accessor:" + name, "%s|%s|%s" % (name, backing, "Dataset" if target is ds else "DataArray"), call, args)
+    # frequency spectra E(f) (no direction dimension), held by the caller as an in-memory array
+    if rng.random() < 0.5:
+        x1 = x.spec.oned()
+        x1 = x1.compute() if hasattr(x1, "compute") else x1
+        x1 = x1.copy(deep=True)
+        for nm1, fn1 in (("hs", lambda: x1.spec.hs()), ("hrms", lambda: x1.spec.hrms()), ("tm01", lambda: x1.spec.tm01()), ("tm02", lambda: x1.spec.tm02()),
+                         ("tp", lambda: x1.spec.tp()), ("sw", lambda: x1.spec.sw()), ("goda", lambda: x1.spec.goda()),
+                         ("stats", lambda: x1.spec.stats(["hs", "hrms", "tm02", "tp"])), ("oned", lambda: x1.spec.oned()),
+                         ("split", lambda: x1.spec.split(fmin=float(x1.freq.min()) * 1.1))):
+            def call1(fn1=fn1):
+                r_ = fn1()
+                if hasattr(r_, "compute"):
+                    r_.compute()
+                return r_
+            pure(rec, "accessor1d:" + nm1, "%s|1d" % nm1, call1, {"self": x1})
     # a sequence of operations applied to the same object: checked once more at the end
     pure(rec, "accessor:sequence", backing, lambda: [x.spec.hs(), x.spec.smooth(3, 3), x.spec.rotate(33.0), x.spec.oned()], {"self": x})
 
